@@ -378,6 +378,68 @@ fn evalforms(text: &str, stdlib: bool) -> String {
     out.join(" ;; ")
 }
 
+/// scope <nf> <parent_0..parent_nf-1 (-1 = root)> <ndefs> (<frame> <namehex> <int>)* <op> <frame> <namehex> [<int>]
+fn scope_cmd(t: &mut Toks) -> String {
+    use ruschm::environment::LexicalScope;
+    let nf: usize = t.int();
+    let mut frames: Vec<Rc<LexicalScope<i64>>> = Vec::new();
+    for _ in 0..nf {
+        let p: i64 = t.int();
+        let f = if p < 0 {
+            LexicalScope::new()
+        } else {
+            LexicalScope::new_child(frames[p as usize].clone())
+        };
+        frames.push(Rc::new(f));
+    }
+    let nd: usize = t.int();
+    for _ in 0..nd {
+        let f: usize = t.int();
+        let name = unhex(t.next());
+        let v: i64 = t.int();
+        frames[f].define(name, v);
+    }
+    let op = t.next();
+    let f: usize = t.int();
+    let name = unhex(t.next());
+    let res = match op {
+        "set" => {
+            let v: i64 = t.int();
+            match frames[f].set(&name, v) {
+                Ok(()) => "OK U".to_string(),
+                Err(e) => err_kind(&e),
+            }
+        }
+        "define" => {
+            let v: i64 = t.int();
+            frames[f].define(name.clone(), v);
+            "OK U".to_string()
+        }
+        "get" => match frames[f].get(&name) {
+            Some(v) => format!("OK I {}", *v),
+            None => "OK None".to_string(),
+        },
+        "get_mut" => match frames[f].get_mut(&name) {
+            Some(v) => format!("OK I {}", *v),
+            None => "OK None".to_string(),
+        },
+        _ => panic!("scope op"),
+    };
+    let mut dump = Vec::new();
+    for fr in frames.iter() {
+        let mut defs: Vec<String> = Vec::new();
+        {
+            let mut it = fr.iter_local_definitions();
+            while let Some((k, v)) = it.next() {
+                defs.push(format!("{}={}", k, v));
+            }
+        }
+        defs.sort();
+        dump.push(defs.join(","));
+    }
+    format!("{} ;; {}", res, dump.join(" | "))
+}
+
 fn run_line(line: &str) -> String {
     let mut t = Toks {
         t: line.split_whitespace().collect(),
@@ -453,6 +515,7 @@ fn run_line(line: &str) -> String {
             }
             format!("OK T {} {} {}", ok as i32, depth, n)
         }
+        "scope" => scope_cmd(&mut t),
         "c18sweep" => c18sweep(t.int()),
         "refdepth" => {
             let s = unhex(t.next());
